@@ -275,3 +275,48 @@ pub fn h3_display(code: u64) -> &'static str {
         _ => "?",
     }
 }
+
+/// Like `raw_client_vs_wt_server`, with the server built through the default builder path.
+pub async fn raw_client_vs_default_wt_server(traw: &Tuning) -> Res<RawClientVsWt> {
+    let server_ep = wt_server_default();
+    let addr = server_ep.local_addr().map_err(|e| e.to_string())?;
+    let accept = async {
+        let incoming = server_ep.accept().await;
+        let req = incoming.await.map_err(|e| format!("incoming: {e}"))?;
+        req.accept().await.map_err(|e| format!("accept: {e}"))
+    };
+    let raw = raw_client_session(addr, traw, "/");
+    let (s, r) = tokio::join!(accept, raw);
+    Ok(RawClientVsWt { server: s?, server_ep, raw: r? })
+}
+
+/// Like `wt_client_vs_raw_server`, with the client built through the default transport.
+pub async fn default_wt_client_vs_raw_server(traw: &Tuning) -> Res<WtClientVsRaw> {
+    let (raw_ep, addr) = raw_server(traw)?;
+    let client_ep = wt_client_default();
+    let url = url_for(addr, "/");
+    let serve = async {
+        let mut s = raw_server_accept(&raw_ep, &default_settings()).await?;
+        s.respond("200", &[]).await?;
+        Ok::<_, String>(s)
+    };
+    let connect = async { client_ep.connect(url).await.map_err(|e| format!("connect: {e}")) };
+    let (s, c) = tokio::join!(serve, connect);
+    Ok(WtClientVsRaw { client: c?, client_ep, raw: s?, raw_ep })
+}
+
+/// wtransport <-> wtransport with both endpoints built through the default builder paths.
+pub async fn wt_pair_default() -> Res<WtPair> {
+    let server_ep = wt_server_default();
+    let addr = server_ep.local_addr().map_err(|e| e.to_string())?;
+    let client_ep = wt_client_default();
+    let url = url_for(addr, "/");
+    let accept = async {
+        let incoming = server_ep.accept().await;
+        let req = incoming.await.map_err(|e| format!("incoming: {e}"))?;
+        req.accept().await.map_err(|e| format!("accept: {e}"))
+    };
+    let connect = async { client_ep.connect(url).await.map_err(|e| format!("connect: {e}")) };
+    let (s, c) = tokio::join!(accept, connect);
+    Ok(WtPair { server: s?, client: c?, server_ep, client_ep })
+}
